@@ -116,6 +116,12 @@ def check_state(rec, B, tg, tp, r, obs_g, obs_p, rng, bits=True, polys=2, dense_
         if ok:
             rec.check("exp.poly", abs(_num(B, x) - wantc) < 1e-5 * (1 + np.abs(hc).sum()), case, nt_state,
                       expected=wantc, observed=_num(B, x), tags={"odd_phase_terms": bool(np.any(hp % 2))})
+            # the observable is an argument: unchanged by the query, and asking again gives the same answer
+            ok2, x2 = rec.attempt("exp.poly", case, lambda: S.expect(H))
+            h2 = (B.np(H.gs), B.ph(H.ps), B.cnp(H.cs))
+            rec.check("query.pure.arg", np.array_equal(h2[0], hg) and np.array_equal(h2[1], hp) and np.allclose(h2[2], hc, atol=1e-7)
+                      and ok2 and abs(_num(B, x2) - _num(B, x)) < 1e-6 * (1 + abs(_num(B, x))), case, nt_state,
+                      expected="polynomial unchanged, same value on the second call", observed={"second": _num(B, x2) if ok2 else None})
     # --- overlaps with other states (pure receiver) / documented refusal (mixed receiver)
     for t in range(2):
         sg, sp, sr = O.random_tableau(rng, N) if t else (tg.copy(), tp.copy(), int(rng.integers(0, N + 1)))
@@ -263,6 +269,25 @@ def run_big(shard, rec, B):
     by sequential group projection (no dense matrices exist at these sizes)."""
     rng = gen.rng_for(rec)
     Ns = [31, 32, 33, 62, 63, 64, 65, 66, 70, 127, 128, 130] if B.name == "np" else [33, 65]
+    # analytically known values far below float32's smallest number: |+>^N against bit strings and against I/2^r x |0..0>
+    for N in ((150, 160, 200, 300) if shard["n"] >= 1 else ()):
+        tg = np.zeros((2 * N, 2 * N), dtype=np.int64)
+        tg[np.arange(N), 2 * np.arange(N)] = 1
+        tg[N + np.arange(N), 2 * np.arange(N) + 1] = 1
+        S = B.State(tg.copy(), np.zeros(2 * N, dtype=np.int64), 0)
+        b = rng.integers(0, 2, N)
+        ok, x = rec.attempt("prob.value", ["plus", N], lambda: S.get_prob(np.array(b) if B.name == "np" else B.torch.tensor(b)))
+        if ok:
+            got = _num(B, x).real
+            rec.check("prob.value", got > 0 and abs(np.log2(got) + N) < 1e-6, ["|+>^N bit string", N], True, expected="2^-%d" % N, observed=got)
+        r = int(rng.integers(1, 20))
+        zg = np.zeros((2 * N, 2 * N), dtype=np.int64)
+        zg[np.arange(N), 2 * np.arange(N) + 1] = 1
+        zg[N + np.arange(N), 2 * np.arange(N)] = 1
+        ok, x = rec.attempt("exp.state", ["plus vs partial zero", N, r], lambda: S.expect(B.State(zg.copy(), np.zeros(2 * N, dtype=np.int64), r)))
+        if ok:
+            got = _num(B, x).real
+            rec.check("exp.state", got > 0 and abs(np.log2(got) + N) < 1e-6, ["|+>^N vs I/2^r x |0..0>", N, r], True, expected="2^-%d" % N, observed=got)
     for t in range(shard["n"]):
         for N in Ns:
             kind = int(rng.integers(3))
